@@ -448,3 +448,11 @@ Qed.
 
 Lemma parse_text_wrap s : strip_parens s = s -> parse_text (c_lparen :: s ++ [c_rparen]) = parse_text s.
 Proof. intro H. unfold parse_text. rewrite strip_parens_wrap, H. reflexivity. Qed.
+
+(* distinct expressions of the domain never print to the same token stream *)
+Lemma fmt_tokens_injective e1 e2 :
+  wf_expr e1 = true -> wf_expr e2 = true -> fmt_tokens e1 = fmt_tokens e2 -> e1 = e2.
+Proof.
+  intros H1 H2 E. pose proof (parse_tokens_fmt_tokens e1 H1) as P1.
+  rewrite E, (parse_tokens_fmt_tokens e2 H2) in P1. injection P1 as <-. reflexivity.
+Qed.
